@@ -53,6 +53,7 @@ pub struct OpSet { pub actors: Vec<ActorId>, pub cols: Columns }
 #[verifier::external_body] pub struct ChangeGraph { _p: () }
 
 pub open spec fn shift_idx(a: int, idx: int) -> int { if a >= idx { a + 1 } else { a } }
+pub open spec fn unshift_idx(a: int, idx: int) -> int { if a > idx { a - 1 } else { a } }
 
 impl OpSet {
     pub open spec fn spec_ids(&self) -> Seq<int> { self.cols.spec_ids() }
@@ -62,6 +63,17 @@ impl OpSet {
         ensures final(self).actors == old(self).actors,
             final(self).spec_ids() == old(self).spec_ids().map_values(|a: int| shift_idx(a, idx as int)),
     { unimplemented!() }
+    /// ASSUMED contract of OpSet::remove_actor (body: `actors.remove(idx)` + column / object-index rewrites through
+    /// closures): requires that no stored index names `idx` (the real column rewrite panics otherwise), removes the
+    /// table entry and lowers exactly the stored indices above it
+    #[verifier::external_body]
+    pub fn remove_actor(&mut self, idx: usize)
+        requires idx < old(self).actors.len(),
+            forall|k: int| 0 <= k < old(self).spec_ids().len() ==> old(self).spec_ids()[k] != idx,
+        ensures final(self).actors@ == old(self).actors@.remove(idx as int),
+            final(self).spec_ids() == old(self).spec_ids().map_values(|a: int| unshift_idx(a, idx as int)),
+    { unimplemented!() }
+
     pub open spec fn wf(&self) -> bool {
         &&& sorted_strict(self.actors@)
         &&& forall|k: int| 0 <= k < self.spec_ids().len() ==> 0 <= #[trigger] self.spec_ids()[k] < self.actors.len()
@@ -122,10 +134,29 @@ impl ChangeGraph {
         ensures final(self).spec_num_actors() == old(self).spec_num_actors() + 1,
             final(self).spec_ids() == old(self).spec_ids().map_values(|a: int| shift_idx(a, idx as int)),
     { unimplemented!() }
+    /// ASSUMED contract of ChangeGraph::remove_actor (asserts the actor's seq index is empty)
+    #[verifier::external_body]
+    pub fn remove_actor(&mut self, idx: usize)
+        requires idx < old(self).spec_num_actors(),
+            forall|k: int| 0 <= k < old(self).spec_ids().len() ==> old(self).spec_ids()[k] != idx,
+        ensures final(self).spec_num_actors() == old(self).spec_num_actors() - 1,
+            final(self).spec_ids() == old(self).spec_ids().map_values(|a: int| unshift_idx(a, idx as int)),
+    { unimplemented!() }
 }
 
 //@ item rust/automerge/src/automerge.rs | enum Actor
 impl Actor {
+//@ fn rust/automerge/src/automerge.rs | impl Actor | remove_actor
+//@   spec
+        requires index < actors.len(),
+        ensures
+            *old(self) matches Actor::Cached(i) ==> (
+                (i == index ==> *final(self) == Actor::Unused(actors[index as int]))
+                && (i > index ==> *final(self) == Actor::Cached((i - 1) as usize))
+                && (i < index ==> *final(self) == Actor::Cached(i))),
+            *old(self) is Unused ==> *final(self) == *old(self),
+//@ end
+
 //@ fn rust/automerge/src/automerge.rs | impl Actor | rewrite_with_new_actor
 //@   spec
         requires *old(self) matches Actor::Cached(i) ==> i < usize::MAX,
@@ -168,6 +199,18 @@ impl Automerge {
             (forall|k: int| index <= k < old(self).ops.actors.len() ==> actor_lt(actor, old(self).ops.actors@[k])),
         ensures final(self).wf(), r == index,
             final(self).ops.actors@ == old(self).ops.actors@.insert(index as int, actor),
+            Self::same_actors(*old(self), *final(self)),
+//@ end
+
+//@ fn rust/automerge/src/automerge.rs | impl Automerge | remove_actor
+//@   spec
+        // `actor` is unused: no op and no change names it (what remove_unused_actors / an empty first transaction establish)
+        requires old(self).wf(), actor < old(self).ops.actors.len(),
+            forall|k: int| 0 <= k < old(self).ops.spec_ids().len() ==> old(self).ops.spec_ids()[k] != actor,
+            forall|k: int| 0 <= k < old(self).change_graph.spec_ids().len() ==> old(self).change_graph.spec_ids()[k] != actor,
+        ensures final(self).wf(),
+            final(self).ops.actors@ == old(self).ops.actors@.remove(actor as int),
+            // C30: every remaining stored index, and the document's own actor, denote the same actor id as before
             Self::same_actors(*old(self), *final(self)),
 //@ end
 
